@@ -1721,6 +1721,10 @@ def c14(ctx):
 import subprocess, urllib.request, socket
 
 
+class ServiceStoppedAnswering(Exception):
+    pass
+
+
 class Server:
     """the unmodified service (main() of httpClient) on a free port"""
 
@@ -1792,8 +1796,29 @@ def c02(ctx):
     n = n_cases(ctx, 120, 2500)
     map_heavy = lambda r: gen.biased_request(r, method=r.choice(['choquetIntegral', 'owa', 'weightedSum', 'electreIII']),
                                              names=[r.choice(['anchoring', 'criteriaOmission', 'criteriaConcealment', 'criteriaMixing'])], prob_mix=False)
+    def near_duplicate_keys(r):
+        """JSON objects keyed by criterion ids (weights, ELECTRE parameters, criterion values) that also hold keys differing from a real id only by
+        blanks or case, with other values: whatever the service makes of them (superfluous entry, rejection), it makes the same every time"""
+        req = gen.biased_request(r, method=r.choice(['weightedSum', 'weightedSum', 'weightedSum', 'owa', 'owa', 'choquetIntegral', 'majorityHeuristic', 'electreIII',
+                                                       'aspectEliminationHeuristic']),
+                                 names=[r.choice(['criteriaOmission', 'preferenceReversal', 'criteriaConcealment', 'criteriaMixing', 'anchoring'])], prob_mix=False)
+        mp = req['methodParameters']
+        for fld in ('weights', 'electreCriteria'):
+            if isinstance(mp.get(fld), dict) and mp[fld]:
+                for k in r.sample(sorted(mp[fld]), min(len(mp[fld]), r.choice([1, 2]))):
+                    v = mp[fld][k]
+                    k2 = r.choice([' ' + k, k + ' ', k.upper() if k.upper() != k else k.lower(), ' ' + k + ' '])
+                    if k2 not in mp[fld]:
+                        mp[fld][k2] = (v * r.choice([2.0, 0.5, 3.0]) if isinstance(v, (int, float)) else json.loads(json.dumps(v)))
+                        if isinstance(mp[fld][k2], dict) and 'k' in mp[fld][k2]:
+                            mp[fld][k2]['k'] = mp[fld][k2]['k'] * 3.0
+        if r.random() < 0.3:
+            a = r.choice(req['knownAlternatives'])
+            k = r.choice(sorted(a['criteria']))
+            a['criteria'][' ' + k] = a['criteria'][k] + 1.0
+        return req
     reqs = [ctx.replay['request']] if ctx.replay and 'request' in ctx.replay else \
-        [rnd.choice([gen.any_request, gen.biased_request, map_heavy, gen.choquet_chain_request,
+        [rnd.choice([gen.any_request, gen.biased_request, map_heavy, gen.choquet_chain_request, near_duplicate_keys, near_duplicate_keys,
                      lambda r: gen.add_biases(r, gen.choquet_chain_request(r), names=[r.choice(['criteriaOmission', 'criteriaConcealment'])],
                                               prob_mix=False)])(rnd) for _ in range(n)]
     # some invalid ones: the verdict must repeat as well
@@ -2370,6 +2395,8 @@ def c20(ctx):
     srv = Server(ctx.binary, mem_kb=3 * 1024 * 1024)
     TIMEOUT = 15
 
+    hung = [0]
+
     def shot(body, what, expect=None, req=None):
         """one POST; the process must answer within the timeout and stay alive"""
         t0 = time.time()
@@ -2384,6 +2411,9 @@ def c20(ctx):
             return None, None
         if st is None:
             ctx.violation('a request received no response within %ds (%s)' % (TIMEOUT, what), payload, {'what': what})
+            hung[0] += 1
+            if hung[0] >= 3:
+                raise ServiceStoppedAnswering()
             return None, None
         if st not in (200, 400):
             ctx.violation('unexpected status %s (%s)' % (st, what), payload, {'what': what})
@@ -2502,6 +2532,8 @@ def c20(ctx):
                     srv = Server(ctx.binary, mem_kb=3 * 1024 * 1024)
         # liveness after the whole history
         st, j = shot(json.dumps(gen.utility_request(rnd, 'weightedSum')).encode(), 'liveness probe after the history', 200)
+    except ServiceStoppedAnswering:
+        ctx.notes.append('the service stopped answering (three requests without a response): the remaining requests were not sent')
     finally:
         srv.close()
     # the model decides accept / reject like the service on the valid and the invalid stream
